@@ -51,7 +51,7 @@ var negOp = map[string]string{"==": "!=", "!=": "==", "<": ">=", "<=": ">", ">":
 // matchCond decides whether cond (an If condition) tests c, and on which edge c holds.
 func matchCond(c Cond, cond ssa.Value) (matched, passOnTrue bool) {
 	// short-circuit lowering: cond = phi(X | false...) means cond ⇒ X; cond = phi(X | true...) means !cond ⇒ !X
-	if phi, ok := cond.(*ssa.Phi); ok {
+	if phi, ok := cond.(*ssa.Phi); ok && !((c.Op == "T" || c.Op == "F") && re(c.L).MatchString(pathOf(cond))) {
 		var x ssa.Value
 		nT, nF, nX := 0, 0, 0
 		for _, e := range phi.Edges {
